@@ -113,9 +113,22 @@ theorem deleteEdge_ok_src {s s' : WState} {w src id : Nat}
       · simp [hs] at h
 
 /-- Skeleton ops (node / edge / attachment ops). -/
-theorem cover_skel {s s' : WState} {o : Op} (hsk : o.isSkel = true) (hs : s.SortedAll)
-    (h : applyOp s o = .ok s') (hre : ¬ Reparents s o) (l : Loc) (hc : Changed s s' l) :
-    covers (opTargets o) l = true := by
+theorem movedAdj_of_edgeAt {s : WState} {w id src dst ty n : Nat} {r : EdgeRec}
+    (h1 : edgeAt s w id = some r) (hr : r.src = n) (hn : ¬ src = n) :
+    movedAdj s (.upsertEdge w id src dst ty) (.adj w n) = true := by
+  simp only [edgeAt] at h1
+  cases hst : s.store? w with
+  | none => rw [hst] at h1; cases h1
+  | some st =>
+    rw [hst] at h1
+    simp only at h1
+    subst hr
+    have hne : ¬ r.src = src := fun h => hn h.symm
+    simp [movedAdj, hst, movedPrev, h1, hne]
+
+theorem cover_skel_in {s s' : WState} {o : Op} (hsk : o.isSkel = true) (hs : s.SortedAll)
+    (h : applyOp s o = .ok s') (l : Loc) (hc : Changed s s' l) :
+    covers (opTargets o) l = true ∨ movedAdj s o l = true := by
   obtain ⟨_, _, _, hN, hE, hNA, hEA⟩ := applyOp_skel_laws hsk hs h
   have hp : ∀ key v, o = .setAtt key v → key.planeValid = true := by
     intro key v ho; subst ho; exact setAtt_ok_planeValid h
@@ -123,19 +136,19 @@ theorem cover_skel {s s' : WState} {o : Op} (hsk : o.isSkel = true) (hs : s.Sort
   | node w i =>
     simp only [Changed] at hc
     rw [hN w i] at hc
-    exact effNode_cov (orKeep_ne (Ne.symm hc))
+    exact .inl (effNode_cov (orKeep_ne (Ne.symm hc)))
   | edge w e =>
     simp only [Changed] at hc
     rw [hE w e] at hc
-    exact effEdge_cov (orKeep_ne (Ne.symm hc))
+    exact .inl (effEdge_cov (orKeep_ne (Ne.symm hc)))
   | natt w i =>
     simp only [Changed] at hc
     rw [hNA w i] at hc
-    exact effNatt_cov (orKeep_ne (Ne.symm hc)) hp
+    exact .inl (effNatt_cov (orKeep_ne (Ne.symm hc)) hp)
   | eatt w e =>
     simp only [Changed] at hc
     rw [hEA w e] at hc
-    exact effEatt_cov (orKeep_ne (Ne.symm hc)) hp
+    exact .inl (effEatt_cov (orKeep_ne (Ne.symm hc)) hp)
   | adj w n =>
     obtain ⟨e, he⟩ := hc
     have hne : effEdge w e o ≠ none := by
@@ -147,25 +160,21 @@ theorem cover_skel {s s' : WState} {o : Op} (hsk : o.isSkel = true) (hs : s.Sort
       simp [effEdge] at hne
       obtain ⟨h1, h2⟩ := hne; subst h1; subst h2
       by_cases hn : src = n
-      · subst hn; simp [opTargets, covers]
-      · exfalso
-        apply he
-        have h2 : edgeAt s' w' id = some { src := src, dst := dst, ty := ty } := by
+      · subst hn; left; simp [opTargets, covers]
+      · have h2 : edgeAt s' w' id = some { src := src, dst := dst, ty := ty } := by
           rw [hE w' id]; simp [effEdge, orKeep]
-        simp only [adjMember, h2, hn, if_false]
         cases h1 : edgeAt s w' id with
-        | none => rfl
+        | none => exfalso; apply he; simp only [adjMember, h2, h1, hn, if_false]
         | some r =>
-          simp only
           by_cases hr : r.src = n
-          · exfalso; apply hre; exact ⟨r, h1, by rw [hr]; exact Ne.symm hn⟩
-          · simp [hr]
+          · right; exact movedAdj_of_edgeAt h1 hr hn
+          · exfalso; apply he; simp [adjMember, h2, h1, hn, hr]
     | deleteEdge w' src id =>
       simp [effEdge] at hne
       obtain ⟨h1, h2⟩ := hne; subst h1; subst h2
       obtain ⟨r, hr, hsrc⟩ := deleteEdge_ok_src h
       by_cases hn : src = n
-      · subst hn; simp [opTargets, covers]
+      · subst hn; left; simp [opTargets, covers]
       · exfalso
         apply he
         have h2 : edgeAt s' w' id = none := by
@@ -177,6 +186,49 @@ theorem cover_skel {s s' : WState} {o : Op} (hsk : o.isSkel = true) (hs : s.Sort
     | openPortal => cases hsk
     | upsertInstance => cases hsk
     | deleteInstance => cases hsk
+
+/-- `movedAdj` holds only for an `UpsertEdge` that re-parents, at the old source's adjacency. -/
+theorem movedAdj_iff {s : WState} {o : Op} {l : Loc} (h : movedAdj s o l = true) :
+    ∃ w id src dst ty r, o = .upsertEdge w id src dst ty ∧ edgeAt s w id = some r ∧ r.src ≠ src ∧
+      l = .adj w r.src := by
+  cases l with
+  | adj w n =>
+    simp only [movedAdj] at h
+    cases hst : s.store? w with
+    | none => rw [hst] at h; cases h
+    | some st =>
+      rw [hst] at h
+      simp only at h
+      cases o with
+      | upsertEdge w' id src dst ty =>
+        simp only [movedPrev, beq_iff_eq] at h
+        by_cases hw : w' = w
+        · subst hw
+          simp only [if_true] at h
+          cases hf : find? id st.edges with
+          | none => rw [hf] at h; cases h
+          | some r =>
+            rw [hf] at h
+            simp only at h
+            by_cases hr : r.src = src
+            · simp [hr] at h
+            · simp only [ne_eq, hr, not_false_eq_true, if_true, Option.some.injEq] at h
+              exact ⟨w', id, src, dst, ty, r, rfl, by simp [edgeAt, hst, hf], hr, by rw [h]⟩
+        · simp [hw] at h
+      | _ => simp [movedPrev] at h
+  | _ => simp [movedAdj] at h
+
+theorem movedAdj_reparents {s : WState} {o : Op} {l : Loc} (h : movedAdj s o l = true) : Reparents s o := by
+  obtain ⟨w, id, src, dst, ty, r, rfl, h1, h2, _⟩ := movedAdj_iff h
+  exact ⟨r, h1, h2⟩
+
+/-- The pre-fix statement: without a re-parenting upsert the stateless table alone covers. -/
+theorem cover_skel {s s' : WState} {o : Op} (hsk : o.isSkel = true) (hs : s.SortedAll)
+    (h : applyOp s o = .ok s') (hre : ¬ Reparents s o) (l : Loc) (hc : Changed s s' l) :
+    covers (opTargets o) l = true := by
+  rcases cover_skel_in hsk hs h l hc with h1 | h1
+  · exact h1
+  · exact absurd (movedAdj_reparents h1) hre
 
 /-! ### instance-level ops -/
 
